@@ -48,6 +48,11 @@ fn request_uris() -> Vec<Vec<u8>> {
 }
 
 pub fn table_case(rec: &mut Rec, server_id: &str, prefix: &str, regs: &[(u8, usize)], uris: &[Vec<u8>], sample_reqs: Option<&mut Rng>) {
+    table_case_paths(rec, server_id, prefix, &PATHS, regs, uris, sample_reqs)
+}
+
+/// the same over an explicit list of paths (`regs` index into it)
+pub fn table_case_paths(rec: &mut Rec, server_id: &str, prefix: &str, paths: &[&str], regs: &[(u8, usize)], uris: &[Vec<u8>], sample_reqs: Option<&mut Rng>) {
     rec.case("table");
     let mut log_ops = vec![];
     let log = Arc::new(Mutex::new(Vec::<usize>::new()));
@@ -58,7 +63,7 @@ pub fn table_case(rec: &mut Rec, server_id: &str, prefix: &str, regs: &[(u8, usi
     // expected table: first registration of a (method, prefix+path) pair wins
     let mut expected: Vec<((u8, Vec<u8>), usize)> = vec![];
     for (id, (m, p)) in regs.iter().enumerate() {
-        let path = PATHS[*p];
+        let path = paths[*p];
         let r = router.add_route(method_of(*m), path.to_string(), Box::new(H { id, log: log.clone() }));
         let full: Vec<u8> = format!("{}{}", prefix, path).into_bytes();
         let dup = expected.iter().any(|(k, _)| k.0 == *m && k.1 == full);
@@ -168,6 +173,21 @@ pub fn run(rec: &mut Rec, rng: &mut Rng, thorough: bool) {
             } else {
                 table_case(rec, SERVER_IDS[0], prefix, s, &uris, Some(rng));
             }
+        }
+    }
+    // long paths: keys of 40..90 bytes, each length registered for one method, every length requested with every
+    // method in both request forms (a key is METHOD ':' prefix+path — none of its parts has a length limit)
+    {
+        let long: Vec<String> = (40..=90usize).map(|l| format!("/{}", "x".repeat(l - 1))).collect();
+        let long_refs: Vec<&str> = long.iter().map(|x| x.as_str()).collect();
+        for prefix in ["", "/p"] {
+            let regs: Vec<(u8, usize)> = (0..long.len()).map(|i| ((i % 3) as u8, i)).collect();
+            let mut uris: Vec<Vec<u8>> = vec![];
+            for p in &long {
+                uris.push(format!("{}{}", prefix, p).into_bytes());
+                uris.push(format!("http://h{}{}", prefix, p).into_bytes());
+            }
+            table_case_paths(rec, SERVER_IDS[0], prefix, &long_refs, &regs, &uris, None);
         }
     }
     // random longer tables
